@@ -15,6 +15,7 @@ The compilation strategy is hence as follows:
 import logging
 from collections import defaultdict
 from .. import ir
+from ..common import CompilerError
 from ..graph import relooper
 from . import components
 from ..codegen.irdag import SelectionGraphBuilder, prepare_function_info
@@ -316,7 +317,12 @@ class IrToWasmCompiler:
 
         # Transform ir-code in shaped code:
         self._block_stack = []
-        shape, self.rmap = relooper.find_structure(ir_function)
+        try:
+            shape, self.rmap = relooper.find_structure(ir_function)
+        except ValueError as ex:
+            raise CompilerError(
+                f"Cannot compile {ir_function.name} to wasm: {ex}"
+            ) from ex
         self.do_shape(shape)
 
         self.decrement_stack_pointer()
@@ -374,28 +380,32 @@ class IrToWasmCompiler:
             assert self.stack == 0, str(self.stack)
             self.pop_block("if")
         elif isinstance(shape, relooper.BreakShape):
-            # Break out of the current loop!
-            assert shape.level == 0
+            # Break out of an enclosing block!
             assert self.stack == 0, str(self.stack)
             label_ref = components.Ref(
-                "label", index=(self._get_block_level() + 1)
+                "label", index=self._get_block_level("block", shape.level)
             )
             self.emit("br", label_ref)
         elif isinstance(shape, relooper.ContinueShape):
-            # Continue the current loop!
-            assert shape.level == 0
+            # Continue an enclosing loop!
             assert self.stack == 0, str(self.stack)
             label_ref = components.Ref(
-                "label", index=(self._get_block_level())
+                "label", index=self._get_block_level("loop", shape.level)
             )
             self.emit("br", label_ref)
+        elif isinstance(shape, relooper.BlockShape):
+            assert self.stack == 0, str(self.stack)
+            self.push_block("block")
+            self.emit("block", "emptyblock")  # A break goes to its end
+            self.do_shape(shape.body)
+            self.emit("end")
+            self.pop_block("block")
+            assert self.stack == 0, str(self.stack)
         elif isinstance(shape, relooper.LoopShape):
             assert self.stack == 0, str(self.stack)
             self.push_block("loop")
-            self.emit("block", "emptyblock")  # Outer block, breaks to end
-            self.emit("loop", "emptyblock")  # Loop block, breaks to here.
+            self.emit("loop", "emptyblock")  # A continue goes to its start
             self.do_shape(shape.body)
-            self.emit("end")
             self.emit("end")
             self.pop_block("loop")
             assert self.stack == 0, str(self.stack)
@@ -848,8 +858,14 @@ class IrToWasmCompiler:
     def pop_block(self, kind):
         assert self._block_stack.pop(-1) == kind
 
-    def _get_block_level(self):
-        """Retrieve current block level for nearest break or continue"""
-        for i, kind in enumerate(reversed(self._block_stack)):
-            if kind in ("loop",):
-                return i
+    def _get_block_level(self, kind, level):
+        """Retrieve the label index of an enclosing block or loop.
+
+        Level 0 is the nearest one of the given kind.
+        """
+        for i, block_kind in enumerate(reversed(self._block_stack)):
+            if block_kind == kind:
+                if level == 0:
+                    return i
+                level -= 1
+        raise ValueError(f"No {kind} to branch to")  # pragma: no cover
